@@ -204,6 +204,30 @@ def domains(job, rng, lo_span, hi_span):
         yield (st, end) if rng.random() < 0.7 else (end, st)
 
 
+LADDER = [1000, 5000, 15000, 30000, 60000, 300000, 900000, 1800000, 3600000, 10800000, 21600000, 43200000, DAY, 2 * DAY, 7 * DAY,
+          30 * DAY, 90 * DAY, 365 * DAY]
+
+
+def exact_threshold_domains(n, rng):
+    """Domains whose span per requested tick sits EXACTLY on a rung of the tick-interval ladder (or on the geometric mean of
+    two rungs, where the choice flips), and one millisecond to either side: comparisons that are only decided by equality."""
+    for _ in range(n):
+        m = rng.choice(MS_CHOICES + [10, 10])
+        i = rng.randrange(len(LADDER))
+        if rng.random() < 0.6 or i == 0:
+            per = LADDER[i]
+        else:
+            per = int(round((LADDER[i - 1] * LADDER[i]) ** 0.5))
+        sp = per * m + rng.choice([0, 0, 0, 1, -1])
+        st = rand_instant(rng)
+        if rng.random() < 0.4:
+            st = dt.datetime(st.year, st.month, 1) if rng.random() < 0.5 else dt.datetime(st.year, 1, 1)
+        end = st + dt.timedelta(milliseconds=sp)
+        if end > HI or sp < 10:
+            continue
+        yield ((st, end) if rng.random() < 0.7 else (end, st)), m
+
+
 # ------------------------------------------------------------------ histories (C15: every time scale, however it was obtained)
 HDOMS = {"dA": [dt.datetime(2001, 3, 4, 5, 6, 7, 89000), dt.datetime(2001, 3, 9)],
          "dB": [dt.datetime(1999, 12, 31, 23, 59, 59, 999000), dt.datetime(2000, 1, 1, 0, 0, 0, 5000)],
@@ -294,6 +318,8 @@ def main():
                 r = ticks_record(d0, d1, rng.choice(MS_CHOICES + [10, 10]), pre=rng.choice(PRE_CHOICES), default=rng.random() < 0.7)
                 if r is not None:
                     recs.append(r)
+        for (d0, d1), m in exact_threshold_domains(job.get("exact", 0), rng):
+            recs.append(ticks_record(d0, d1, m))
     elif mode == "nice":
         for d0, d1 in domains(job, rng, 10, 200 * 365 * DAY):
             for m in [None, rng.choice([2, 5, 20])]:
@@ -302,6 +328,8 @@ def main():
                 r = nice_record(d0, d1, rng.choice([None, None, 2, 5, 20]), pre=rng.choice(PRE_CHOICES))
                 if r is not None:
                     recs.append(r)
+        for (d0, d1), m in exact_threshold_domains(job.get("exact", 0), rng):
+            recs.append(nice_record(d0, d1, m))
     elif mode == "map":
         for d0, d1 in domains(job, rng, 1, 250 * 365 * DAY):
             span = d1 - d0
